@@ -160,6 +160,17 @@ def _find_search_optimizations(filters):
             # be derived from it.
             continue
 
+        if filter_.property in ("type", "id") and not (
+            isinstance(filter_.value, str) or (
+                filter_.op == "in" and
+                all(isinstance(v, str) for v in filter_.value)
+            )
+        ):
+            # Types and ids are strings: no list of directory entries can be
+            # derived from a value of another kind.  (The filter is still
+            # evaluated on every object read.)
+            continue
+
         if filter_.property == "type":
             if filter_.op in ("=", "in"):
                 allowed_types = _update_allow(allowed_types, filter_.value)
